@@ -24,9 +24,19 @@ property C27: e.g. `pdl.attribute = 0 : i32` is tested for truthiness and droppe
 it is excluded from the library of this process and counted (`excluded: rule_miscompiled:<name>`).
 
 Recipes:
-  {"kind": "rules",   "ty": "i8"|"i32"|"i64", "rules": [rule names], "iters": 1..4, "costs": {op name: 1..9},
+  {"kind": "rules",   "ty": "i8"|"i32"|"i64"|"index", "rules": [rule names], "iters": 1..4, "costs": {op name: 1..9},
    "prog": <progen recipe>}
   {"kind": "norules", "ty": ..., "costs": {...}, "prog": <progen recipe>}         create-eclasses, add-costs, extract
+
+Signatures:
+  {"check": "pipeline_raises", "pass", "exc", "site"}          a pass raised something that is not a stated limitation
+  {"check": "intermediate_invalid" | "output_invalid", "pass", "why"}   module.verify() fails after that pass
+  {"check": "eclass_left", "ops", "kind"}                      equivalence.* ops survive eqsat-extract
+  {"check": "output_not_ssa" | "output_cyclic", "kind"}        an operand is used before / without being defined
+  {"check": "result_changed", "rules", "ops"}                  refsem results differ; rules / op kinds of the case after
+                                                               the internal minimisation ("(not minimised)" once the
+                                                               per-process minimisation budget is used up)
+  {"check": "norules_structure", "ops"}                        (b): op multisets differ after cse + unused-op removal
 """
 from __future__ import annotations
 
@@ -348,8 +358,12 @@ def rule_available(name, ty):
                 got_attr += 1
             elif op.name == "pdl_interp.are_equal" and str(op.operands[0].type) == "!pdl.value":
                 got_eq += 1
+        rhs_new = [c for c in _consts(RULES[name][1]) if c not in _consts(lhs)]
+        got_new = sum(1 for op in m.walk() if op.name == "pdl_interp.create_attribute")
         if got_attr < want_attr:
             why = "constant_constraint_dropped"
+        elif got_new < len(set(rhs_new)):
+            why = "created_constant_dropped"
         elif got_eq < want_eq:
             why = "equality_constraint_dropped"
     ok[key] = why
